@@ -346,6 +346,12 @@ Section Bounds.
         rewrite E1, E3. split; [exact H1|]. split; [exact A|]. split; [exact B|]. split; [reflexivity|].
         intro X; congruence.
       + split; [exact H1|]. split; [exact H2|]. split; [exact H3|]. split; [intros _; exact (HJ eq_refl)|]. intro X; congruence.
+    - (* EvDrop *)
+      destruct (state s); try discriminate. destruct (hch s) eqn:Eh; try discriminate.
+      inversion H; subst; clear H. proj.
+      split; [exact H1|]. split; [exact I|]. split; [exact H3|]. split.
+      + intro X. rewrite (HJ X). reflexivity.
+      + intro X. specialize (H4 X). unfold tgt_len, tgt_chan in *; proj. destruct (tgt s); proj; lia.
   Qed.
 End Bounds.
 
